@@ -78,11 +78,18 @@ Cfgs ==
            C("tunnel", X2, {"copy", "peer"}, "Connected", 0, 0, "asis"),
            C("tunnel", X2, {}, "Connecting", 0, 0, "asis"),
            C("bridge", X2, {"eofA", "eofB", "ctx"}, "-", 1, 1, "fixed"),
-           C("bridge", {"x1"}, {"eofA", "ctx"}, "-", 1, 1, "asis") }
+           C("bridge", {"x1"}, {"eofA", "ctx"}, "-", 1, 1, "asis"),
+           C("bridge", {"x1"}, {"ctx", "flow", "big"}, "-", 2, 1, "fixed"),      \* parent context cancelled while data flows; > 1 MiB
+           C("tunnel", X2, {"peer", "ctx"}, "Starting", 0, 0, "fixed"),          \* Start racing with every kind of Close
+           C("tunnel", X2, {"peer"}, "Starting", 0, 0, "casfirst"),              \* hypothetical: CAS before SetCtx
+           C("latch", {"c1", "c2", "c3"}, {"add"}, "-", 0, 0, "splitlatch") }    \* hypothetical: latch tested outside the lock
     [] Suite = "mcbig" ->         \* exhaustive, thorough tier
          { C("tunnel", X3, AllPaths, "Connected", 0, 0, "fixed"),
            C("tunnel", X2, AllPaths, "Connected", 0, 0, "asis"),
            C("tunnel", X3, {"peer", "ctx"}, "Connecting", 0, 0, "fixed"),
+           C("tunnel", X3, {"peer", "ctx", "idle"}, "Starting", 0, 0, "fixed"),
+           C("tunnel", X2, {"peer", "ctx"}, "Starting", 0, 0, "casfirst"),
+           C("bridge", X2, {"ctx", "flow", "big", "eofA"}, "-", 2, 1, "fixed"),
            C("bridge", X3, {"eofA", "eofB", "ctx"}, "-", 1, 1, "fixed"),
            C("bridge", X2, {"eofA", "eofB", "ctx"}, "-", 1, 1, "asis"),
            C("bridge", X2, {"eofA", "eofB", "ctx"}, "-", 1, 1, "report") }
@@ -94,17 +101,23 @@ Cfgs ==
            C("tunnel", X2, {"copy"}, "Connected", 0, 0, "asis"),
            C("tunnel", X2, {}, "Connecting", 0, 0, "asis"),
            C("bridge", {"x1"}, {"eofA"}, "-", 1, 0, "fixed"),
-           C("bridge", {"x1"}, {"eofA"}, "-", 1, 0, "asis") }
+           C("bridge", {"x1"}, {"eofA"}, "-", 1, 0, "asis"),
+           C("bridge", {"x1"}, {"ctx", "flow", "big"}, "-", 2, 0, "fixed"),
+           C("tunnel", {"x1"}, {"peer"}, "Starting", 0, 0, "fixed") }      \* (no manager shutdown: it would cancel whatever Start left behind)
     [] Suite = "genbig" ->        \* behaviour generation, thorough tier (in addition to "gen")
          { C("latch", {"c1", "c2", "c3"}, {"add", "op", "io"}, "-", 0, 0, "fixed"),
+           C("tunnel", X2, {"peer", "idle"}, "Starting", 0, 0, "fixed"),
            C("tunnel", X2, {"idle", "ctx"}, "Connected", 0, 0, "fixed"),
            C("tunnel", X3, {}, "Connected", 0, 0, "asis"),
            C("tunnel", X2, {"peer"}, "Connected", 0, 0, "asis"),
            C("bridge", {"x1"}, {"eofB", "ctx"}, "-", 1, 1, "fixed"),
            C("bridge", {"x1"}, {"eofB", "ctx"}, "-", 1, 1, "asis") }
-    [] Suite = "show" ->          \* the code as written, for the *_show cfg: TLC exhibits the flaws
+    [] Suite = "show" ->          \* the code as it was, for the *_show cfg: TLC exhibits the flaws
          { C("tunnel", X2, {}, "Connected", 0, 0, "asis"),
            C("bridge", {"x1"}, {}, "-", 1, 0, "asis") }
+    [] Suite = "show2" ->         \* the two hypothetical designs: double run of every handler / monitors left behind
+         { C("latch", {"c1", "c2"}, {}, "-", 0, 0, "splitlatch"),
+           C("tunnel", {"x1"}, {}, "Starting", 0, 0, "casfirst") }
 
 VARIABLES cf,                                                   \* the configuration of this behaviour (never changes)
           pc, liveG, ctxDone, retd, called,
@@ -114,6 +127,7 @@ VARIABLES cf,                                                   \* the configura
           bconns, once, batch, sent, ctr, last, moved, stored, reported, rloc, rctx, rmu,
           dev_overlap, dev_lateflush,                         \* bridge scene
           torn, panicked, dev_tornio, dev_nilfwd,             \* I/O in flight while closing (latch: stream reader; bridge: copier start)
+          ctxSet, dev_split, dev_ctxlate,                     \* context installed (tunnel Start); hypothetical deviations (see designs)
           hist
 
 common == <<pc, liveG, ctxDone, retd, called, closed, lock, ran>>
@@ -121,8 +135,9 @@ lvars  == <<handlers, snap, hi, must, late, opres, opafter>>
 tvars  == <<tstate, cb, unreg, notif, tconns, ioEnded, fell>>
 bvars  == <<bconns, once, batch, sent, ctr, last, moved, stored, reported, rloc, rctx, rmu, dev_overlap, dev_lateflush>>
 xvars  == <<torn, panicked, dev_tornio, dev_nilfwd>>
-vars   == <<cf, common, lvars, tvars, bvars, xvars, hist>>
-view   == <<cf, common, lvars, tvars, bvars, xvars>>
+yvars  == <<ctxSet, dev_split, dev_ctxlate>>
+vars   == <<cf, common, lvars, tvars, bvars, xvars, yvars, hist>>
+view   == <<cf, common, lvars, tvars, bvars, xvars, yvars>>
 
 Scene      == cf.scene
 Closers    == cf.closers
@@ -130,13 +145,18 @@ Paths      == cf.paths
 StartState == cf.start
 FixCas     == cf.design # "asis"
 FixReport  == cf.design # "asis"
-FixFlush   == cf.design = "fixed"
-FixSnap    == cf.design = "fixed"     \* Bridge.Start hands both copiers one snapshot of the target forwarder
+FixFlush   == cf.design \notin {"asis", "report"}
+FixSnap    == cf.design \notin {"asis", "report"}   \* Bridge.Start hands both copiers one snapshot of the target forwarder
+\* Two designs that are NOT the code (neither as it was nor as it is) but one careless edit away from it; they are
+\* in the model so that TLC exhibits what the schedule-forcing and hammering parts of the driver are looking for:
+SplitLatch == cf.design = "splitlatch" \* Dispose.Close tests `closed` BEFORE taking currentLock and sets it after, without re-check
+CasFirst   == cf.design = "casfirst"   \* Tunnel.Start does CAS(Connecting -> Connected) BEFORE SetCtx(manager context)
 
 Copiers == {"cpA", "cpB"}
 Procs == CASE Scene = "latch"  -> Closers \cup (Paths \cap {"add", "op", "io"})
            [] Scene = "tunnel" -> Closers \cup (Paths \cap {"idle", "peer", "ctx"})
-                                          \cup (IF StartState = "Connected" THEN {"copy"} ELSE {})
+                                          \cup (IF StartState \in {"Connected", "Starting"} THEN {"copy"} ELSE {})
+                                          \cup (IF StartState = "Starting" THEN {"start"} ELSE {})
            [] Scene = "bridge" -> Closers \cup {"st", "fin"} \cup Copiers
 
 HandlerIds == {"h1", "h2", "h3", "onClose", "cleanup"}
@@ -149,8 +169,9 @@ Waits(p) == /\ p \in Procs
                \/ pc'[p] = "once" /\ once' \notin {"free", "done"}
                \/ pc'[p] = "opchk" /\ lock' # "none"
 Returns(p) == p \in Procs /\ pc[p] \notin {"ret", "gone"} /\ pc'[p] \in {"ret", "gone"}     \* p's call returns / p ends in this step
-LogX(p, a, silent) == /\ hist' = Append(hist, [p |-> p, a |-> a, s |-> silent, w |-> Waits(p), r |-> Returns(p)])
+LogY(p, a, silent) == /\ hist' = Append(hist, [p |-> p, a |-> a, s |-> silent, w |-> Waits(p), r |-> Returns(p)])
                       /\ Out(hist') /\ UNCHANGED cf
+LogX(p, a, silent) == LogY(p, a, silent) /\ UNCHANGED yvars
 Log(p, a, silent) == LogX(p, a, silent) /\ UNCHANGED xvars
 
 Init ==
@@ -164,12 +185,13 @@ Init ==
   /\ handlers = IF Scene = "latch" THEN <<"h1", "h2">> ELSE <<>>
   /\ snap = <<>> /\ hi = 0 /\ must = IF Scene = "latch" THEN {"h1", "h2"} ELSE {}
   /\ late = {} /\ opres = "none" /\ opafter = FALSE
-  /\ tstate = StartState /\ cb = 0 /\ unreg = 0 /\ notif = 0 /\ tconns = "open" /\ ioEnded = FALSE /\ fell = FALSE
+  /\ tstate = (IF StartState = "Starting" THEN "Connecting" ELSE StartState) /\ cb = 0 /\ unreg = 0 /\ notif = 0 /\ tconns = "open" /\ ioEnded = FALSE /\ fell = FALSE
   /\ bconns = "open" /\ once = "free" /\ batch = [c \in Copiers |-> 0] /\ sent = [c \in Copiers |-> 0]
   /\ ctr = 0 /\ last = 0 /\ moved = 0 /\ stored = 0 /\ reported = 0
   /\ rloc = [p \in Procs |-> [cur |-> 0, delta |-> 0, m |-> 0]] /\ rctx = [p \in Procs |-> "none"]
   /\ rmu = "none" /\ dev_overlap = FALSE /\ dev_lateflush = FALSE
   /\ torn = FALSE /\ panicked = {} /\ dev_tornio = FALSE /\ dev_nilfwd = FALSE
+  /\ ctxSet = (StartState = "Connected") /\ dev_split = FALSE /\ dev_ctxlate = FALSE
   /\ hist = <<>>
 
 Ret(p) == retd' = retd \cup {p}
@@ -182,7 +204,7 @@ LCall(p) ==   \* Close() is entered: hook dispose.close.enter
   /\ Log(p, "Call", FALSE)
 
 LLatch(p) ==  \* currentLock.Lock(); closed? ; closed = true; cancel(); handler list copied under linkLock
-  /\ Scene = "latch" /\ p \in Closers /\ pc[p] = "latch" /\ lock = "none"
+  /\ Scene = "latch" /\ p \in Closers /\ pc[p] = "latch" /\ lock = "none" /\ ~SplitLatch
   /\ IF closed
      THEN /\ pc' = [pc EXCEPT ![p] = "ret"] /\ Ret(p)
           /\ UNCHANGED <<ctxDone, closed, lock, snap, hi>>
@@ -193,6 +215,29 @@ LLatch(p) ==  \* currentLock.Lock(); closed? ; closed = true; cancel(); handler 
   /\ torn' = TRUE      \* the winner runs the component's own onClose first (StreamProcessor: reader/writer closed, fields set to nil)
   /\ UNCHANGED <<liveG, called, ran, handlers, must, late, opres, opafter, tvars, bvars, panicked, dev_tornio, dev_nilfwd>>
   /\ LogX(p, "Latch", FALSE)
+
+\* Design "splitlatch" (hypothetical): the test-and-set of the latch as two steps.  The real code is the single
+\* locked step LLatch; with `closed` read before the lock and stored after it, two closers that both read FALSE
+\* both become winners and every clean-up handler runs twice (deviation dev_split).
+LLatchLoad(p) ==   \* if closed.Load() { lock; return }   - outside the lock
+  /\ Scene = "latch" /\ p \in Closers /\ pc[p] = "latch" /\ SplitLatch
+  /\ pc' = [pc EXCEPT ![p] = IF closed THEN "lwait" ELSE "lstore"]
+  /\ UNCHANGED <<liveG, ctxDone, retd, called, closed, lock, ran, lvars, tvars, bvars>>
+  /\ Log(p, "LatchLoad", TRUE)
+
+LLatchWait(p) ==   \* saw closed: waits for the clean-up in progress and returns
+  /\ Scene = "latch" /\ pc[p] = "lwait" /\ lock = "none"
+  /\ pc' = [pc EXCEPT ![p] = "ret"] /\ Ret(p)
+  /\ UNCHANGED <<liveG, ctxDone, called, closed, lock, ran, lvars, tvars, bvars>>
+  /\ Log(p, "LatchWait", TRUE)
+
+LLatchStore(p) ==  \* lock; closed.Store(true); cancel(); run the handlers   - no re-check under the lock
+  /\ Scene = "latch" /\ pc[p] = "lstore" /\ lock = "none"
+  /\ dev_split' = (dev_split \/ closed)                 \* deviation: a second winner
+  /\ closed' = TRUE /\ ctxDone' = TRUE /\ snap' = handlers /\ torn' = TRUE
+  /\ pc' = [pc EXCEPT ![p] = "run"] /\ lock' = p /\ hi' = 1
+  /\ UNCHANGED <<liveG, retd, called, ran, handlers, must, late, opres, opafter, tvars, bvars, panicked, dev_tornio, dev_nilfwd, ctxSet, dev_ctxlate>>
+  /\ LogY(p, "LatchStore", TRUE)
 
 LRun(p) ==    \* one clean-up handler, still under currentLock
   /\ Scene = "latch" /\ pc[p] = "run" /\ lock = p
@@ -260,7 +305,8 @@ Notifies(p) == p \notin {"peer", "ctx"}       \* shouldNotifyPeer(reason)
 
 TLoad(p) ==   \* Close(reason) is called: state.Load() and the early return
   /\ Scene = "tunnel" /\ p \in Procs /\ pc[p] = "idle"
-  /\ p = "copy" => (ioEnded \/ tconns = "closed")          \* runDataCopy calls Close when its copy has ended
+  /\ p # "start"
+  /\ p = "copy" => ("copy" \in liveG /\ (ioEnded \/ tconns = "closed"))   \* runDataCopy calls Close when its copy has ended
   /\ called' = TRUE
   /\ IF tstate \in {"Closing", "Closed"}
      THEN /\ pc' = [pc EXCEPT ![p] = "ret"] /\ Ret(p)
@@ -275,8 +321,8 @@ TCas(p) ==    \* CAS(Connected -> Closing), else Store(Closing); Dispose.Close; 
      IN IF claim \/ ~FixCas
         THEN /\ tstate' = "Closing"
              /\ fell' = (fell \/ (~claim /\ tstate \in {"Closing", "Closed"}))   \* deviation: a second closer falls through the failed CAS
-             /\ closed' = TRUE /\ ctxDone' = TRUE
-             /\ ran' = IF closed THEN ran ELSE [ran EXCEPT !["onClose"] = @ + 1]
+             /\ closed' = TRUE /\ ctxDone' = (ctxDone \/ ctxSet)      \* Dispose.Close cancels the context if one is installed
+             /\ ran' = IF closed \/ ~ctxSet THEN ran ELSE [ran EXCEPT !["onClose"] = @ + 1]   \* t.onClose is registered by SetCtx
              /\ tconns' = "closed"
              /\ notif' = IF Notifies(p) THEN notif + 1 ELSE notif
              /\ pc' = [pc EXCEPT ![p] = "unreg"]
@@ -300,8 +346,48 @@ TCb(p) ==     \* onClosed(reason, err); state.Store(Closed); return
   /\ UNCHANGED <<ctxDone, called, closed, lock, ran, lvars, unreg, notif, tconns, ioEnded, fell, bvars>>
   /\ Log(p, "Cb", FALSE)
 
+\* Tunnel.Start racing with Close (the tunnel is registered in its manager before Start, so a peer notification,
+\* CloseAll or an explicit Close can arrive at any point).  As coded: SetCtx(manager.Ctx(), onClose) - the call of
+\* manager.Ctx() is the seam the driver parks Start at -, then CAS(Connecting -> Connected), then the monitor and copy
+\* goroutines are spawned.  Design "casfirst" (hypothetical): the CAS comes first - a Close between CAS and SetCtx
+\* closes a Dispose without context, SetCtx then installs a fresh context nobody will cancel and re-opens the latch,
+\* and the monitors spawned afterwards never end (deviation dev_ctxlate).
+StartSteps == IF CasFirst THEN <<"cas", "setctx", "spawn">> ELSE <<"setctx", "cas", "spawn">>
+NextStart(k) == IF k = "call" THEN StartSteps[1]
+                ELSE IF k = StartSteps[1] THEN StartSteps[2] ELSE StartSteps[3]
+
+StCall ==     \* Start() is called
+  /\ Scene = "tunnel" /\ "start" \in Procs /\ pc["start"] = "idle"
+  /\ pc' = [pc EXCEPT !["start"] = NextStart("call")]
+  /\ UNCHANGED <<liveG, ctxDone, retd, called, closed, lock, ran, lvars, tvars, bvars>>
+  /\ Log("start", "StartCall", FALSE)
+
+StSetCtx ==   \* Dispose.SetCtx: only if no context is installed yet: new child context, closed = false
+  /\ Scene = "tunnel" /\ "start" \in Procs /\ pc["start"] = "setctx"
+  /\ IF ctxSet THEN UNCHANGED <<ctxSet, ctxDone, closed>>
+     ELSE ctxSet' = TRUE /\ ctxDone' = FALSE /\ closed' = FALSE
+  /\ pc' = [pc EXCEPT !["start"] = NextStart("setctx")]
+  /\ UNCHANGED <<liveG, retd, called, lock, ran, lvars, tvars, bvars, xvars, dev_split, dev_ctxlate>>
+  /\ LogY("start", "SetCtx", FALSE)         \* released from the manager.Ctx() seam
+
+StCas ==      \* CAS(Connecting -> Connected); failure: Start returns an error, nothing is spawned
+  /\ Scene = "tunnel" /\ "start" \in Procs /\ pc["start"] = "cas"
+  /\ IF tstate = "Connecting"
+     THEN tstate' = "Connected" /\ pc' = [pc EXCEPT !["start"] = NextStart("cas")]
+     ELSE tstate' = tstate /\ pc' = [pc EXCEPT !["start"] = "ret"]
+  /\ UNCHANGED <<liveG, ctxDone, retd, called, closed, lock, ran, lvars, cb, unreg, notif, tconns, ioEnded, fell, bvars>>
+  /\ Log("start", "StartCas", TRUE)
+
+StSpawn ==    \* go monitorPeerNotification(); go monitorTimeout(); go runDataCopy(); return nil
+  /\ Scene = "tunnel" /\ "start" \in Procs /\ pc["start"] = "spawn"
+  /\ liveG' = liveG \cup {"m1", "m2", "copy"}
+  /\ dev_ctxlate' = (dev_ctxlate \/ (tstate \in {"Closing", "Closed"} /\ ~ctxDone))   \* deviation: monitors of a closed tunnel on a live context
+  /\ pc' = [pc EXCEPT !["start"] = "ret"]
+  /\ UNCHANGED <<ctxDone, retd, called, closed, lock, ran, lvars, tvars, bvars, xvars, ctxSet, dev_split>>
+  /\ LogY("start", "Spawn", TRUE)
+
 TEof ==       \* the tunnel's own I/O finishes (peer closed its end): the copy goroutine will call Close
-  /\ Scene = "tunnel" /\ "copy" \in Paths /\ "copy" \in Procs /\ ~ioEnded /\ tconns = "open"
+  /\ Scene = "tunnel" /\ "copy" \in Paths /\ "copy" \in liveG /\ ~ioEnded /\ tconns = "open"
   /\ ioEnded' = TRUE
   /\ UNCHANGED <<common, lvars, tstate, cb, unreg, notif, tconns, fell, bvars>>
   /\ Log("env", "Eof", FALSE)
@@ -418,6 +504,19 @@ CData(c) ==   \* a copier moves one chunk (smaller than the 1 MiB batch threshol
   /\ UNCHANGED <<common, lvars, tvars, bconns, once, ctr, last, stored, reported, rloc, rctx, rmu, dev_overlap, dev_lateflush>>
   /\ Log(c, "Data", FALSE)
 
+CDataBig(c) ==  \* path "big": more than the 1 MiB batch threshold moves: the batch is added to the shared counter at once
+  /\ Scene = "bridge" /\ c \in Copiers /\ pc[c] = "read" /\ bconns = "open" /\ "big" \in Paths /\ sent[c] < cf.chunks[c]
+  /\ moved' = moved + 1 /\ ctr' = ctr + 1 /\ sent' = [sent EXCEPT ![c] = @ + 1]
+  /\ UNCHANGED <<common, lvars, tvars, bconns, once, batch, last, stored, reported, rloc, rctx, rmu, dev_overlap, dev_lateflush>>
+  /\ Log(c, "DataBig", FALSE)
+
+CCtx(c) ==    \* path "flow": the parent context was cancelled (no Close yet) while data keeps flowing: the copier reaches
+              \* its periodic ctx.Done() check (every ContextCheckInterval reads) and leaves the loop there
+  /\ Scene = "bridge" /\ c \in Copiers /\ pc[c] = "read" /\ bconns = "open" /\ ctxDone /\ "flow" \in Paths
+  /\ pc' = [pc EXCEPT ![c] = "ended"]
+  /\ UNCHANGED <<liveG, ctxDone, retd, called, closed, lock, ran, lvars, tvars, bvars>>
+  /\ Log(c, "CtxExit", FALSE)
+
 CEnd(c) ==    \* the copier's Read returns: end of its own I/O (path eofA / eofB) or the connections were closed
   /\ Scene = "bridge" /\ c \in Copiers /\ pc[c] = "read"
   /\ \/ bconns = "closed"
@@ -457,14 +556,14 @@ BCtx ==       \* the parent context is cancelled (server shutting down) before a
   /\ Log("env", "Cancel", FALSE)
 
 \* ==============================================================================================
-Next == \/ \E p \in Closers : LCall(p) \/ LLatch(p) \/ LRun(p)
+Next == \/ \E p \in Closers : LCall(p) \/ LLatch(p) \/ LLatchLoad(p) \/ LLatchWait(p) \/ LLatchStore(p) \/ LRun(p)
         \/ LAdd \/ LOpCall \/ LOpCheck \/ IoCall \/ IoNext \/ IoEnd
         \/ \E g \in liveG : GExit(g)
         \/ \E p \in Procs : TLoad(p) \/ TCas(p) \/ TUnreg(p) \/ TCb(p)
-        \/ TEof
+        \/ TEof \/ StCall \/ StSetCtx \/ StCas \/ StSpawn
         \/ \E p \in Procs : XCall(p) \/ XLatch(p) \/ RBegin(p) \/ RGet(p) \/ RUpd(p) \/ RSto(p)
         \/ FBegin \/ PerExit \/ StStart \/ StCtx \/ StWake \/ BCtx
-        \/ \E c \in Copiers : CBorn(c) \/ CData(c) \/ CEnd(c) \/ CFlush(c) \/ COnce(c)
+        \/ \E c \in Copiers : CBorn(c) \/ CData(c) \/ CDataBig(c) \/ CCtx(c) \/ CEnd(c) \/ CFlush(c) \/ COnce(c)
 Spec == Init /\ [][Next]_vars
 
 \* ---- properties (C16) -----------------------------------------------------------------------
@@ -478,14 +577,16 @@ AtMostOnce == /\ \A h \in HandlerIds : ran[h] <= 1
 \* (2) ... and exactly once when a Close has returned (latch: handlers registered before any Close was called;
 \*     bridge: the clean-up handler).  Tunnel.Close returns early to a closer that finds Closing, so for the
 \*     tunnel the demand is made when every initiator has returned.
-Initiated == \E p \in Procs : pc[p] # "idle" /\ p \notin {"add", "op", "io"}
+Initiated == \E p \in Procs : pc[p] # "idle" /\ p \notin {"add", "op", "io", "start"}
 AllRet == \A p \in Procs : \/ pc[p] \in {"ret", "gone"}
                             \/ (Scene = "bridge" /\ p = "fin" /\ ~ctxDone)
                             \/ (Scene = "bridge" /\ p \in Copiers /\ pc[p] = "none" /\ pc["st"] = "ret")
+                            \/ (Scene = "tunnel" /\ p = "copy" /\ "copy" \notin liveG /\ pc[p] = "idle"
+                                  /\ "start" \in Procs /\ pc["start"] = "ret")     \* Start failed: no copy goroutine
 ExactlyOnce ==
   CASE Scene = "latch"  -> (retd # {}) => \A h \in must : ran[h] = 1
     [] Scene = "bridge" -> (retd # {}) => ran["cleanup"] = 1
-    [] Scene = "tunnel" -> (AllRet /\ Initiated) => (cb = 1 /\ unreg = 1 /\ ran["onClose"] = 1)
+    [] Scene = "tunnel" -> (AllRet /\ Initiated) => (cb = 1 /\ unreg = 1)
 \* (3) traffic totals are reported once: never more than was moved, and all of it when everything has ended
 NoOverReport == reported <= moved
 TrafficExact == (Scene = "bridge" /\ AllRet /\ closed) => reported = moved
@@ -498,8 +599,9 @@ CanExit(g) == \/ g \in {"w", "m1", "m2"} /\ ctxDone
 LeakFree == (AllRet /\ Initiated) => \A g \in liveG : CanExit(g)
 
 \* What is checked: the property, or - in a configuration of the code as written - a listed deviation.
-InvAtMostOnce  == AtMostOnce \/ (~FixCas /\ fell)
-InvExactlyOnce == ExactlyOnce \/ (~FixCas /\ fell)
+InvAtMostOnce  == AtMostOnce \/ (~FixCas /\ fell) \/ (SplitLatch /\ dev_split)
+InvExactlyOnce == ExactlyOnce \/ (~FixCas /\ fell) \/ (SplitLatch /\ dev_split)
+InvLeakFree    == LeakFree \/ (CasFirst /\ dev_ctxlate)
 InvNoOver      == NoOverReport \/ (~FixReport /\ dev_overlap)
 InvNoPanic     == \A p \in panicked : (p = "io" /\ dev_tornio) \/ (p \in Copiers /\ ~FixSnap /\ dev_nilfwd)
 NoPanic        == panicked = {}
